@@ -251,6 +251,81 @@ impl Target {
     }
 }
 
+/// Uploads whose transfer stalls between two chunks for longer than any server-side timer: the
+/// server may refuse such an upload, but what it acknowledges must be the whole body.
+fn stalled(spec: SutSpec, seed: u64) -> (u64, Vec<Value>) {
+    let mut n = 0u64;
+    let mut findings = vec![];
+    let mut t = Target::new(spec, seed);
+    for route in ["version", "snapshot"] {
+        for nchunks in [2usize, 3, 5] {
+            for stall_before in 0..=nchunks {
+                for secs in [1u64, 4, 6, 30, 61, 3600, 86_400] {
+                    n += 1;
+                    let chunks: Vec<Vec<u8>> = (0..nchunks).map(|k| gen("random", 1000 + 777 * k, seed ^ (n * 31 + k as u64))).collect();
+                    let data: Vec<u8> = chunks.concat();
+                    let label = format!("{} chunks of ~1-4 KB, {secs} s stall before chunk {stall_before}", nchunks);
+                    if route == "snapshot" {
+                        match t.sut.call(&Req::AddVersion { c: t.client, parent: t.latest, data: b"v".to_vec() }) {
+                            Resp::AvOk { id, .. } => t.latest = id,
+                            other => {
+                                findings.push(json!({"class": "stalled|setup", "payload": label, "chunking": "stall", "msg": format!("{:?}", other)}));
+                                continue;
+                            }
+                        }
+                    }
+                    let (uri, ct) = if route == "version" { (format!("/v1/client/add-version/{}", t.latest), HS_CT) } else { (format!("/v1/client/add-snapshot/{}", t.latest), SNAP_CT) };
+                    let hr = HttpReq {
+                        method: "POST".into(),
+                        uri,
+                        headers: vec![("X-Client-Id".into(), t.client.to_string().into_bytes()), ("Content-Type".into(), ct.as_bytes().to_vec())],
+                        body: Body::Stall { chunks, stall_before, secs },
+                    };
+                    let raw = match t.sut.send_http(&hr) {
+                        Ok(r) => r,
+                        Err(e) => {
+                            findings.push(json!({"class": "stalled|not-served", "payload": label, "chunking": "stall", "msg": e}));
+                            t = Target::new(spec, seed);
+                            continue;
+                        }
+                    };
+                    let parent = t.latest;
+                    if raw.status == 200 {
+                        // acknowledged: must be the whole body
+                        if route == "version" {
+                            match t.sut.call(&Req::GetChild { c: t.client, parent }) {
+                                Resp::GcFound { id, data: d2, .. } => {
+                                    if d2 != data {
+                                        findings.push(json!({"class": "stalled|bytes-differ", "payload": label, "chunking": "stall", "msg": format!("upload acknowledged with 200 but {} of {} bytes were stored ({label})", d2.len(), data.len())}));
+                                    }
+                                    t.latest = id;
+                                }
+                                other => findings.push(json!({"class": "stalled|not-served", "payload": label, "chunking": "stall", "msg": format!("read-back answered {:?}", other)})),
+                            }
+                        } else {
+                            match t.sut.call(&Req::GetSnapshot { c: t.client }) {
+                                Resp::GsFound { data: d2, .. } if d2 == data => {}
+                                Resp::GsFound { data: d2, .. } => findings.push(json!({"class": "stalled|bytes-differ", "payload": label, "chunking": "stall", "msg": format!("snapshot upload acknowledged with 200 but {} of {} bytes were stored ({label})", d2.len(), data.len())})),
+                                other => findings.push(json!({"class": "stalled|not-served", "payload": label, "chunking": "stall", "msg": format!("snapshot read-back answered {:?}", other)})),
+                            }
+                        }
+                    } else if route == "version" {
+                        // refused (e.g. a read timeout): then nothing may have been stored
+                        match t.sut.call(&Req::GetChild { c: t.client, parent }) {
+                            Resp::GcNotFound => {}
+                            other => findings.push(json!({"class": "stalled|refused-but-stored", "payload": label, "chunking": "stall", "msg": format!("upload answered {} yet GetChildVersion(parent) answers {:?}", raw.status, other)})),
+                        }
+                    }
+                    if findings.len() > 10 {
+                        return (n, findings);
+                    }
+                }
+            }
+        }
+    }
+    (n, findings)
+}
+
 /// All orders in which two streams with `a` and `b` items can deliver them.
 pub fn interleavings(a: usize, b: usize) -> Vec<Vec<usize>> {
     fn rec(a: usize, b: usize, cur: &mut Vec<usize>, out: &mut Vec<Vec<usize>>) {
@@ -370,6 +445,13 @@ pub fn worker_main() {
             let spec = crate::sut::spec_from_name(task["spec"].as_str().unwrap()).expect("spec");
             let route = task["route"].as_str().unwrap().to_string();
             let chunked = task["chunking"].as_bool().unwrap_or(false);
+            if task["stalled"].as_bool().unwrap_or(false) {
+                let r = std::panic::catch_unwind(std::panic::AssertUnwindSafe(|| stalled(spec, seed)));
+                return match r {
+                    Ok((n, f)) => json!({"roundtrips": n, "chunkings": 0, "stalled": n, "findings": f}),
+                    Err(e) => json!({"error": format!("payload worker panicked: {}", crate::sut::panic_msg(e))}),
+                };
+            }
             if let Some(k) = task["interleaved"].as_array() {
                 let ka = k[0].as_str().unwrap_or("version").to_string();
                 let kb = k[1].as_str().unwrap_or("version").to_string();
